@@ -684,8 +684,16 @@ def _b_str(ex, node, st):
 
 
 def _b_repr(ex, node, st):
+    from .symexec import ExcVal
     args = pos_args(ex, node, st)
+    if isinstance(args[0], ExcVal):
+        return fresh(TStr, 'repr_exc')
     return ex.str_fn('repr', [args[0]])
+
+
+def _m_exc_trace(ex, node, st):
+    """ru.get_exception_trace(): a list of strings (content irrelevant)"""
+    return fresh(TList(TStr), 'trace')
 
 
 def _minmax(ex, node, st, is_min):
@@ -1111,7 +1119,8 @@ def _m_as_list(ex, node, st):
 _MODFUNCS = {'math.floor': _m_floor, 'math.ceil': _m_ceil, 'm.floor': _m_floor,
              'm.ceil': _m_ceil, 'time.time': _m_time,
              'copy.deepcopy': _m_deepcopy, 'copy.copy': _m_deepcopy,
-             'ru.as_list': _m_as_list}
+             'ru.as_list': _m_as_list,
+             'ru.get_exception_trace': _m_exc_trace}
 
 
 # ------------------------------------------------------------------------------
